@@ -231,6 +231,11 @@ def check_real(S, U, fn, spec, pre, name, bounds, mutant=None, known=(), timeout
         if mandatory: S.inconclusive.append('%s [not encoded: %s]' % (name, e))
         return None
     P = list(pre(res.ins)) if pre else []
+    pin = S.pins.get(name) or S.pins.get('%s.%s' % (U.name, fn))          # ./check C10 --replay <file>: inputs fixed to the recorded counterexample
+    if pin:
+        for terms, vals in zip(res.ins, pin):
+            for x, v in zip(terms, vals):
+                if z3.is_const(x) and x.decl().kind() == z3.Z3_OP_UNINTERPRETED: P.append(x == z3.RealVal(v))
     fnlist = ['w_%s -> %s' % (fn, f.body.strip().replace('\n', ' ')[:160])]
     binfo = ('unwind=%d; ' % unwind) + bounds + '; ll=' + U.ll_sha()
     allvars = [x for row in res.ins for x in row if not z3.is_rational_value(x)]
